@@ -536,19 +536,14 @@ const F02: Shape = Shape { n: 2, kl: [1, 3, 0, 0], vl: [0, 0, 0, 0], fk: None, f
 // @bound 64-byte page; pre-state shape as named (vv = variable key/variable value, fv = fixed 2-byte key, vf = fixed 2-byte value, ff = fixed both, f0 = zero-width values); position 0, 1 or 2 as named; inserted key/value lengths fixed per harness; all bytes arbitrary
 // @stubs crate::panicking -> false; alloc::fmt::format -> empty
 leaf_op_harness!(c04_leaf_insert_vv_at0, { insert_case(VV2, 0, 1, 2); });
-leaf_op_harness!(c04_leaf_insert_vv_at1, { insert_case(VV2, 1, 3, 0); });
 leaf_op_harness!(c04_leaf_insert_vv_at2, { insert_case(VV2, 2, 0, 3); });
 leaf_op_harness!(c04_leaf_insert_fv_at0, { insert_case(FV2, 0, 2, 2); });
-leaf_op_harness!(c04_leaf_insert_fv_at1, { insert_case(FV2, 1, 2, 0); });
 leaf_op_harness!(c04_leaf_insert_fv_at2, { insert_case(FV2, 2, 2, 3); });
 leaf_op_harness!(c04_leaf_insert_vf_at0, { insert_case(VF2, 0, 1, 2); });
-leaf_op_harness!(c04_leaf_insert_vf_at1, { insert_case(VF2, 1, 3, 2); });
 leaf_op_harness!(c04_leaf_insert_vf_at2, { insert_case(VF2, 2, 0, 2); });
 leaf_op_harness!(c04_leaf_insert_ff_at0, { insert_case(FF2, 0, 3, 1); });
-leaf_op_harness!(c04_leaf_insert_ff_at1, { insert_case(FF2, 1, 3, 1); });
 leaf_op_harness!(c04_leaf_insert_ff_at2, { insert_case(FF2, 2, 3, 1); });
 leaf_op_harness!(c04_leaf_insert_f0_at0, { insert_case(F02, 0, 2, 0); });
-leaf_op_harness!(c04_leaf_insert_f0_at1, { insert_case(F02, 1, 2, 0); });
 leaf_op_harness!(c04_leaf_insert_f0_at2, { insert_case(F02, 2, 3, 0); });
 
 // @harness props=C04,C10 tier=quick timeout=1200 mem=8 stubbing=1 replay=native
@@ -557,20 +552,38 @@ leaf_op_harness!(c04_leaf_insert_f0_at2, { insert_case(F02, 2, 3, 0); });
 // @bound 64-byte page; shapes VV, FV_, VF, FF, F0 (3 pairs); position as named; all bytes arbitrary
 // @stubs crate::panicking -> false; alloc::fmt::format -> empty
 leaf_op_harness!(c04_leaf_remove_vv_at0, { remove_case(VV, 0); });
-leaf_op_harness!(c04_leaf_remove_vv_at1, { remove_case(VV, 1); });
 leaf_op_harness!(c04_leaf_remove_vv_at2, { remove_case(VV, 2); });
 leaf_op_harness!(c04_leaf_remove_fv_at0, { remove_case(FV_, 0); });
-leaf_op_harness!(c04_leaf_remove_fv_at1, { remove_case(FV_, 1); });
 leaf_op_harness!(c04_leaf_remove_fv_at2, { remove_case(FV_, 2); });
 leaf_op_harness!(c04_leaf_remove_vf_at0, { remove_case(VF, 0); });
-leaf_op_harness!(c04_leaf_remove_vf_at1, { remove_case(VF, 1); });
 leaf_op_harness!(c04_leaf_remove_vf_at2, { remove_case(VF, 2); });
 leaf_op_harness!(c04_leaf_remove_ff_at0, { remove_case(FF, 0); });
-leaf_op_harness!(c04_leaf_remove_ff_at1, { remove_case(FF, 1); });
 leaf_op_harness!(c04_leaf_remove_ff_at2, { remove_case(FF, 2); });
 leaf_op_harness!(c04_leaf_remove_f0_at0, { remove_case(F0, 0); });
-leaf_op_harness!(c04_leaf_remove_f0_at1, { remove_case(F0, 1); });
 leaf_op_harness!(c04_leaf_remove_f0_at2, { remove_case(F0, 2); });
+
+// the middle positions run in the thorough tier (the quick command has to fit in 900 s)
+// @harness props=C04,C10 tier=thorough timeout=1200 mem=8 stubbing=1 replay=native
+// @desc LeafMutator::insert at a given position of a 2-pair leaf equals the list model (pair inserted at that index, all others unchanged and in order) and the page stays well-formed for the independent decoder; sufficient_insert_inplace_space says yes and the insert stays inside the page
+// @functions LeafMutator::{new,insert,update_key_end,update_value_end,sufficient_insert_inplace_space}, LeafAccessor::*
+// @bound 64-byte page; pre-state shape as named (vv = variable key/variable value, fv = fixed 2-byte key, vf = fixed 2-byte value, ff = fixed both, f0 = zero-width values); position 0, 1 or 2 as named; inserted key/value lengths fixed per harness; all bytes arbitrary
+// @stubs crate::panicking -> false; alloc::fmt::format -> empty
+leaf_op_harness!(c04_leaf_insert_vv_at1, { insert_case(VV2, 1, 3, 0); });
+leaf_op_harness!(c04_leaf_insert_fv_at1, { insert_case(FV2, 1, 2, 0); });
+leaf_op_harness!(c04_leaf_insert_vf_at1, { insert_case(VF2, 1, 3, 2); });
+leaf_op_harness!(c04_leaf_insert_ff_at1, { insert_case(FF2, 1, 3, 1); });
+leaf_op_harness!(c04_leaf_insert_f0_at1, { insert_case(F02, 1, 2, 0); });
+
+// @harness props=C04,C10 tier=thorough timeout=1200 mem=8 stubbing=1 replay=native
+// @desc LeafMutator::remove of the pair at the given position of a 3-pair leaf equals the list model and keeps the page well-formed
+// @functions LeafMutator::{new,remove,update_key_end,update_value_end}, LeafAccessor::*
+// @bound 64-byte page; shapes VV, FV_, VF, FF, F0 (3 pairs); position as named; all bytes arbitrary
+// @stubs crate::panicking -> false; alloc::fmt::format -> empty
+leaf_op_harness!(c04_leaf_remove_vv_at1, { remove_case(VV, 1); });
+leaf_op_harness!(c04_leaf_remove_fv_at1, { remove_case(FV_, 1); });
+leaf_op_harness!(c04_leaf_remove_vf_at1, { remove_case(VF, 1); });
+leaf_op_harness!(c04_leaf_remove_ff_at1, { remove_case(FF, 1); });
+leaf_op_harness!(c04_leaf_remove_f0_at1, { remove_case(F0, 1); });
 
 // @harness props=C04,C10 tier=quick timeout=1200 mem=8 stubbing=1 replay=native
 // @desc LeafMutator::replace of a value by a shorter, equal-length or longer one equals the list model (only that value changes) and keeps the page well-formed; sufficient_replace_inplace_space says yes
